@@ -214,6 +214,7 @@ class Recorder:
         self.rules: Dict[str, str] = {}
         self.assumptions: List[str] = []
         self.extra: Dict[str, Any] = {}
+        self.only: Optional[set] = None  # debugging: restrict drive_hypothesis / drive_cases to these sub-checks
         self.t0 = time.time()
 
     # -- counting ------------------------------------------------------------------
@@ -316,7 +317,8 @@ class Recorder:
             path = self.write_replay(v)
             print(f"VIOLATION property={self.pid} replay={path}")
             print(f"  sub={v['sub']} bucket={v['bucket']}\n  {v['msg'][:1500]}")
-        self.write_evidence()
+        if self.only is None:  # a debugging run restricted to some sub-checks must not pass for the check's evidence
+            self.write_evidence()
         return 1 if self.violations else 0
 
     def write_evidence(self) -> None:
@@ -385,6 +387,8 @@ def drive_hypothesis(
 
     In the thorough tier a large budget is split over forked worker processes (one Hypothesis run
     per shard, seed = f(VERIF_SEED, shard)); the shard recorders are merged."""
+    if rec.only is not None and sub not in rec.only:
+        return
     if parallel and rec.tier == "thorough" and max_examples >= 3000 and ncpu() > 1:
         shards = min(16, ncpu())
         key = f"{rec.pid}/{sub}"
@@ -476,6 +480,8 @@ def drive_cases(
 ) -> None:
     """Plain loop over explicit cases (enumeration in-process).  First failing case of each
     new bucket is recorded (enumeration order = shortest first, so it is minimal)."""
+    if rec.only is not None and sub not in rec.only:
+        return
     oracle = guarded(oracle)
     for case in cases:
         res = oracle(case)
